@@ -130,7 +130,11 @@ func c18Machine(seed uint64, budget int, lg *caseLog) c18Report {
 		idx := k
 		k++
 		var muts []mutant2
-		for _, jm := range mutateJSON(rc.Op.Payload, r, budget) {
+		second := 0
+		if budget > 1000 {
+			second = 40
+		}
+		for _, jm := range mutateJSONDeep(rc.Op.Payload, r, budget, second) {
 			o := rc.Op
 			o.Payload = jm.Data
 			muts = append(muts, mutant2{"payload:" + jm.Label, o})
